@@ -23,7 +23,7 @@ ASSUMPTIONS = [
     "the base case itself is judged against the reference model by C01",
 ]
 MINIMUM = {"C09.judged": 1500, "f:C09.labels_beyond_2^16_both_sides": 30, "f:C09.sum_wraps_in_dtype": 30, "f:C09.dtype_max_label": 30}
-BUDGET_S = {"quick": 600, "thorough": 900}
+BUDGET_S = {"quick": 1200, "thorough": 900}
 
 
 def cases(tier, seed):
